@@ -59,7 +59,7 @@ pub fn run(cx: &mut Ctx) {
                 let live: Vec<usize> = ra.values().copied().collect();
                 let inv = |m: &BTreeMap<usize, usize>, h: usize| *m.iter().find(|(_, &x)| x == h).unwrap().0;
                 let pick = |rng: &mut Rng| live[rng.n(live.len())];
-                let op = rng.n(15);
+                let op = rng.n(18);
                 let res: Result<(), String> = guard(|| -> Result<(), String> {
                     match op {
                         0 | 1 | 2 => { let ty = [VType::Z, VType::X, VType::B][rng.n(3)]; let ph = Phase::new(Rational64::new(rng.n(8) as i64, 4));
@@ -124,6 +124,39 @@ pub fn run(cx: &mut Ctx) {
                                 ];
                                 hist.push(format!("probe removed vertex (vec {}, hash {})", xa, xb));
                                 for (name, oka, okb) in probes { if oka != okb { return Err(format!("{} on a removed vertex: vec backend {}, hash backend {}", name, if oka { "succeeds" } else { "fails" }, if okb { "succeeds" } else { "fails" })); } } } }
+                        15 if !live.is_empty() => { // variables and coordinates
+                            let x = pick(&mut rng); let (xa, xb) = (inv(&ra, x), inv(&rb, x));
+                            let p = quizx::params::Parity::single(rng.n(3) as u32);
+                            if rng.n(2) == 0 { a.set_vars(xa, p.clone()); b.set_vars(xb, p.clone()); } else { a.add_to_vars(xa, &p); b.add_to_vars(xb, &p); }
+                            let (r, q) = (rng.n(9) as f64 * 0.5, rng.n(5) as f64);
+                            if rng.n(2) == 0 { a.set_row(xa, r); b.set_row(xb, r); } else { a.set_coord(xa, (r, q)); b.set_coord(xb, (r, q)); }
+                            if a.row(xa) != b.row(xb) || a.qubit(xa) != b.qubit(xb) || a.vars(xa) != b.vars(xb) { return Err("row / qubit / vars read back differently".into()); }
+                            hist.push(format!("vars / coordinates of h{}", x)); }
+                        16 => { // append a two-spider piece (built on the same backend): fresh names, scalars multiplied
+                            fn piece<G: GraphLike>(k: usize) -> G { let mut s = G::new(); let u = s.add_vertex_with_phase(VType::Z, Phase::new(Rational64::new(k as i64, 4))); let w = s.add_vertex(VType::X); s.add_edge_with_type(u, w, if k % 2 == 0 { EType::H } else { EType::N }); *s.scalar_mut() *= Scalar4::new([0, 1, 0, 0], 1); s }
+                            let k = rng.n(8);
+                            let (sa, sb): (quizx::vec_graph::Graph, quizx::hash_graph::Graph) = (piece(k), piece(k));
+                            let (ma, mb) = (a.append_graph(&sa), b.append_graph(&sb));
+                            let (mut ka, mut kb): (Vec<usize>, Vec<usize>) = (sa.vertices().collect(), sb.vertices().collect()); ka.sort(); kb.sort();
+                            if ka.len() != 2 || kb.len() != 2 || ma.len() != 2 || mb.len() != 2 { return Err("append_graph: the renaming does not cover the appended vertices".into()); }
+                            for i in 0..2 { let (na, nb) = (ma[&ka[i]], mb[&kb[i]]);
+                                if ra.contains_key(&na) || rb.contains_key(&nb) { return Err(format!("append_graph reused a live name ({}, {})", na, nb)); }
+                                ra.insert(na, next); rb.insert(nb, next); next += 1; }
+                            hist.push(format!("append_graph(piece {})", k)); }
+                        17 if live.len() >= 2 => { // induced sub-graph on a selection (in the given order): both backends, and against the definition
+                            let mut sel: Vec<usize> = vec![]; for _ in 0..1 + rng.n(4) { let h = pick(&mut rng); if !sel.contains(&h) { sel.push(h); } }
+                            let (va, vb): (Vec<usize>, Vec<usize>) = (sel.iter().map(|&h| inv(&ra, h)).collect(), sel.iter().map(|&h| inv(&rb, h)).collect());
+                            let (ga, gb) = (a.subgraph_from_vertices(va.clone()), b.subgraph_from_vertices(vb));
+                            let idm: BTreeMap<usize, usize> = { let mut vs: Vec<usize> = ga.vertices().collect(); vs.sort(); vs.into_iter().enumerate().map(|(i, v)| (v, i)).collect() };
+                            let idh: BTreeMap<usize, usize> = { let mut vs: Vec<usize> = gb.vertices().collect(); vs.sort(); vs.into_iter().enumerate().map(|(i, v)| (v, i)).collect() };
+                            if observe(&ga, &idm)? != observe(&gb, &idh)? { return Err(format!("subgraph_from_vertices({:?}) differs between the backends", sel)); }
+                            if ga.num_vertices() != sel.len() { return Err("sub-graph has the wrong number of vertices".into()); }
+                            let want = a.edges().filter(|(s, t, _)| va.contains(s) && va.contains(t)).count();
+                            if ga.num_edges() != want { return Err(format!("sub-graph on {:?} has {} edges, the induced sub-graph has {}", sel, ga.num_edges(), want)); }
+                            let names: Vec<usize> = { let mut vs: Vec<usize> = ga.vertices().collect(); vs.sort(); vs };
+                            for (i, &v) in va.iter().enumerate() { let (d0, d1) = (a.vertex_data(v), ga.vertex_data(names[i])); if d0.ty != d1.ty || d0.phase != d1.phase || d0.vars != d1.vars { return Err("sub-graph vertex data differ from the original's".into()); }
+                                for (j, &w) in va.iter().enumerate() { if a.edge_type_opt(v, w) != ga.edge_type_opt(names[i], names[j]) { return Err(format!("sub-graph wire ({}, {}) differs from the original's", i, j)); } } }
+                            hist.push(format!("subgraph_from_vertices({:?})", sel)); }
                         _ => {}
                     }
                     let (oa, ob) = (observe(&a, &ra)?, observe(&b, &rb)?);
